@@ -261,7 +261,7 @@ func conclude(prop, tier string, seed int64, fam *Family, results []instResult, 
 	needNative := len(groups) > 0
 	validated, mismatches := 0, 0
 	var mismatchNotes []string
-	nb = buildNative(scratch, fam, false)
+	nb = buildNative(scratch, fam, os.Getenv("VCHECK_RACE_AUDIT") != "") // the audit variant (debug) runs the sampled paths under the race detector
 	if nb.err != nil {
 		infra = append(infra, nb.err.Error())
 	} else {
